@@ -706,17 +706,9 @@ func (t *ZeroAllocTokenizer) processBlockTag(content string) {
 			// Add 'with' keyword
 			t.AddToken(TOKEN_NAME, "with", t.line)
 
-			// Process context expression as object
-			if strings.HasPrefix(contextExpr, "{") && strings.HasSuffix(contextExpr, "}") {
-				// Context is an object literal
-				t.AddToken(TOKEN_PUNCTUATION, "{", t.line)
-				objectContent := contextExpr[1 : len(contextExpr)-1]
-				t.tokenizeObjectContents(objectContent)
-				t.AddToken(TOKEN_PUNCTUATION, "}", t.line)
-			} else {
-				// Context is a variable or expression
-				t.TokenizeExpression(contextExpr)
-			}
+			// Process context expression (hash literal, variable or any
+			// other expression) with the general expression tokenizer
+			t.TokenizeExpression(contextExpr)
 		} else {
 			// Just a template path
 			t.tokenizeTemplatePath(blockContent)
